@@ -178,6 +178,81 @@ fn verif_ack_manager_transmit() {
     kani::cover!(true, "ACK sent and completed");
 }
 
+// ACK-of-ACK bookkeeping (RFC 9000 13.2.4): packets 40 and 42 are acknowledged in an ack-eliciting
+// packet, 44 arrives afterwards. When the peer acknowledges that packet, exactly the numbers the
+// ACK frame covered stop being tracked (nothing received later is forgotten); when the packet is
+// declared lost instead, everything stays tracked and an ACK is due again.
+fn ack_of_ack(lost: bool) {
+    let mut mgr = AckManager::new(PacketNumberSpace::ApplicationData, ack::Settings::default());
+    let mut publisher = Publisher::no_snapshot();
+    let t0 = NoopClock.get_time();
+    let d = DatagramInfo {
+        timestamp: t0,
+        payload_len: 1200,
+        ecn: ExplicitCongestionNotification::NotEct,
+        destination_connection_id: connection::LocalId::TEST_ID,
+        destination_connection_id_classification: connection::id::Classification::Local,
+        source_connection_id: None,
+    };
+    let ip = [0u8; 4];
+    let cid = [0u8; 1];
+    let mkpath = || s2n_quic_core::event::builder::Path {
+        local_addr: s2n_quic_core::event::builder::SocketAddress::IpV4 { ip: &ip, port: 0 },
+        local_cid: s2n_quic_core::event::builder::ConnectionId { bytes: &cid },
+        remote_addr: s2n_quic_core::event::builder::SocketAddress::IpV4 { ip: &ip, port: 0 },
+        remote_cid: s2n_quic_core::event::builder::ConnectionId { bytes: &cid },
+        id: 0,
+        is_active: true,
+    };
+    let mut feed = |mgr: &mut AckManager, n: u64, publisher: &mut Publisher| {
+        let mut p = ProcessedPacket::new(pn(n), &d);
+        p.ack_elicitation = AckElicitation::Eliciting;
+        mgr.on_processed_packet(&p, mkpath(), publisher);
+    };
+    feed(&mut mgr, 40, &mut publisher);
+    feed(&mut mgr, 42, &mut publisher);
+    let mut ctx = crate::verif_support::StubCtx::new(64);
+    ctx.eliciting = true; // the packet carrying the ACK also carries ack-eliciting frames
+    assert!(mgr.on_transmit(&mut ctx));
+    mgr.on_transmit_complete(&mut ctx);
+    // the third packet: ack-eliciting or not
+    {
+        let mut p = ProcessedPacket::new(pn(44), &d);
+        if kani::any() {
+            p.ack_elicitation = AckElicitation::Eliciting;
+        }
+        mgr.on_processed_packet(&p, mkpath(), &mut publisher);
+    }
+    assert!(mgr.ack_ranges.count() == 3);
+    let carrier = ctx.pn;
+    if lost {
+        mgr.on_packet_loss(&carrier);
+        // nothing is forgotten and the ACK goes out again
+        assert!(mgr.ack_ranges.count() == 3);
+        assert!(mgr.ack_ranges.contains(&pn(40)) && mgr.ack_ranges.contains(&pn(42)) && mgr.ack_ranges.contains(&pn(44)));
+        assert!(mgr.has_transmission_interest());
+    } else {
+        mgr.on_packet_ack(t0, &carrier);
+        // the peer has seen our ACK up to 42: those numbers need not be reported again,
+        // the later 44 is still owed
+        assert!(!mgr.ack_ranges.contains(&pn(40)) && !mgr.ack_ranges.contains(&pn(42)));
+        assert!(mgr.ack_ranges.contains(&pn(44)));
+        assert!(mgr.ack_ranges.count() == 1);
+        assert!(mgr.largest_received_packet_number_acked() == pn(42));
+    }
+    core::mem::forget(mgr);
+    core::mem::forget(publisher);
+}
+
+#[cfg_attr(kani, kani::proof)]
+#[cfg_attr(kani, kani::unwind(6))]
+fn verif_ack_manager_ack_of_ack() {
+    let lost: bool = kani::any();
+    ack_of_ack(lost);
+    kani::cover!(lost, "ACK carrier lost");
+    kani::cover!(!lost, "ACK carrier acknowledged");
+}
+
 // thorough: THREE processed packets (concrete numbers, symbolic elicitation flags): what is
 // remembered for acknowledgement is exactly the set of numbers processed - nothing else, each once,
 // coalesced into the right number of ranges - and the third packet's promptness rule.
@@ -251,6 +326,7 @@ fn verif_replay() {
     kani::replay(&[
         ("verif_ack_manager_two_packets", verif_ack_manager_two_packets),
         ("verif_ack_manager_transmit", verif_ack_manager_transmit),
+        ("verif_ack_manager_ack_of_ack", verif_ack_manager_ack_of_ack),
         ("verif_ack_manager_three_packets", verif_ack_manager_three_packets),
     ]);
 }
